@@ -98,19 +98,24 @@ Definition goja_define (ext : bool) (existing : option ival) (d : pdesc) : optio
   match validated with
   | None => None
   | Some ex =>
-      match d_val d with
-      | Some v => if is_true (d_wr d) && is_true (d_en d) && is_true (d_cf d) then Some (IPlain v) else
-          let p := mkVP v (dflt (d_wr d) (vp_w ex)) (dflt (d_en d) (vp_e ex)) (dflt (d_cf d) (vp_c ex)) false None None in
-          let p := match d_get d with Some _ => mkVP vundef (vp_w p) (vp_e p) (vp_c p) true getterObj (vp_set p) | None => p end in
-          let p := match d_set d with Some _ => mkVP vundef (vp_w p) (vp_e p) (vp_c p) true (vp_get p) setterObj | None => p end in
-          Some (IProp p)
-      | None =>
-          let p := mkVP (vp_value ex) (dflt (d_wr d) (vp_w ex)) (dflt (d_en d) (vp_e ex)) (dflt (d_cf d) (vp_c ex))
-                        (if isSome (d_wr d) then false else vp_acc ex) (vp_get ex) (vp_set ex) in
-          let p := match d_get d with Some _ => mkVP vundef (vp_w p) (vp_e p) (vp_c p) true getterObj (vp_set p) | None => p end in
-          let p := match d_set d with Some _ => mkVP vundef (vp_w p) (vp_e p) (vp_c p) true (vp_get p) setterObj | None => p end in
-          Some (IProp p)
-      end
+      if isSome (d_val d) && is_true (d_wr d) && is_true (d_en d) && is_true (d_cf d)
+      then Some (IPlain (dflt (d_val d) vundef)) else
+      (* flags, then value *)
+      let p := mkVP (dflt (d_val d) (vp_value ex)) (dflt (d_wr d) (vp_w ex)) (dflt (d_en d) (vp_e ex))
+                    (dflt (d_cf d) (vp_c ex)) (vp_acc ex) (vp_get ex) (vp_set ex) in
+      (* data fields present: accessor -> data drops [[Get]]/[[Set]], [[Writable]] defaults to false (4561dbf) *)
+      let p := if isSome (d_val d) || isSome (d_wr d)
+               then mkVP (vp_value p) (if vp_acc p && negb (isSome (d_wr d)) then false else vp_w p) (vp_e p) (vp_c p)
+                         false None None
+               else p in
+      (* accessor fields present: data -> accessor drops [[Value]]/[[Writable]] *)
+      let p := if isSome (d_get d) || isSome (d_set d)
+               then mkVP vundef false (vp_e p) (vp_c p) true (vp_get p) (vp_set p) else p in
+      let p := match d_get d with Some _ => mkVP (vp_value p) (vp_w p) (vp_e p) (vp_c p) (vp_acc p) getterObj (vp_set p)
+                                | None => p end in
+      let p := match d_set d with Some _ => mkVP (vp_value p) (vp_w p) (vp_e p) (vp_c p) (vp_acc p) (vp_get p) setterObj
+                                | None => p end in
+      Some (IProp p)
   end.
 
 (* what scripts see of an [ival]: getOwnPropertyDescriptor (builtin_object.go:31) *)
@@ -312,6 +317,9 @@ Fixpoint lupd {A} (l : list A) (i : nat) (x : A) : list A :=
   | y :: r, S j => y :: lupd r j x
   end.
 
+Definition count_present (vs : list (option ival)) : Z :=
+  Z.of_nat (length (filter (fun x => isSome x) vs)).
+
 (* the slow path loop of _setLengthInt (array.go:86-95); [r] = values[l..] reversed, [i] = index of its head *)
 Fixpoint d_scan (r : list (option ival)) (i : N) (l : N) (pvc : Z) : N * bool * Z :=
   match r with
@@ -331,7 +339,8 @@ Definition d_setLengthInt (a : darr) (l : N) : darr * bool :=
     then d_scan (rev (skipn (N.to_nat (N.min l (nlen vs))) vs)) (nlen vs - 1) l (da_pvc a)
     else (l, true, da_pvc a) in
   let vs' := if l' <=? nlen vs then firstn (N.to_nat l') vs else vs in
-  (mkDA vs' l' (da_objCount a) pvc' (da_lw a) (da_base a), ret).
+  let oc' := if l' <=? nlen vs then (da_objCount a - count_present (skipn (N.to_nat l') vs))%Z else da_objCount a in
+  (mkDA vs' l' oc' pvc' (da_lw a) (da_base a), ret).
 
 (* setLengthInt (array.go:118) / setLength (array.go:129) *)
 Definition d_setLengthInt_chk (a : darr) (l : N) : darr * bool :=
@@ -409,7 +418,9 @@ Definition d_defineIdx (a : darr) (idx : N) (d : pdesc) : iarr * bool :=
           let pv := ((match dnth (da_values a2) idx with Some (IProp _) => -1 | _ => 0 end) +
                      (if is_vp prop then 1 else 0))%Z in
           (ID (d_put (d_cnt a2 oc pv) idx (Some prop)), true)
-      | (IS s, _) => (IS (sa_add s idx prop), true)
+      | (IS s, _) =>
+          let s' := sa_add s idx prop in
+          (IS (mkSA (sa_items s') (sa_length s') (sa_pvc s' + (if is_vp prop then 1 else 0))%Z (sa_lw s') (sa_base s')), true)
       end
   end.
 
@@ -512,9 +523,9 @@ Definition sp_defineIdx (s : sparr) (idx : N) (d : pdesc) : iarr * bool :=
       | None =>
           match sp_expand s1 idx with
           | (IS s2, _) => (IS (sp_cnt (sp_put s2 idx prop) pv), true)
-          | (ID a, _) => (ID (d_put a idx (Some prop)), true)   (* the increment goes to the dead sparse object *)
+          | (ID a, _) => (ID (d_put (d_cnt a 1 pv) idx (Some prop)), true)
           end
-      | Some _ => (IS (sp_cnt (sp_put s1 idx prop) pv), true)
+      | Some old => (IS (sp_cnt (sp_put s1 idx prop) ((if is_vp old then -1 else 0) + pv)), true)
       end
   end.
 
@@ -617,8 +628,9 @@ Definition i_setLength (a : iarr) (l : N) : iarr * bool :=
   | IS s => let '(s', r) := sp_setLength s l in (IS s', r)
   end.
 
-(* setOwnStr("length", v) : toLengthUint32 first (RangeError), then setLength *)
+(* setOwnStr("length", v) : [[Writable]] first (85f74d9), then toLengthUint32 (RangeError), then setLength *)
 Definition i_setlen (a : iarr) (n : N) : iarr * N :=
+  if negb (i_lw a) then (a, 1) else
   if 4294967295 <? n then (a, 2) else let '(a', ok) := i_setLength a n in (a', berr ok).
 
 (* Runtime.defineArrayLength (array.go:381) *)
@@ -699,8 +711,6 @@ Definition sp_export (s : sparr) : list (option val) :=
 Definition i_export (a : iarr) := match a with ID d => d_export d | IS s => sp_export s end.
 
 (* the counters as they should be *)
-Definition count_present (vs : list (option ival)) : Z :=
-  Z.of_nat (length (filter (fun x => isSome x) vs)).
 Definition count_vp (vs : list (option ival)) : Z :=
   Z.of_nat (length (filter (fun x => match x with Some (IProp _) => true | _ => false end) vs)).
 Definition count_vp_items (l : list (N * ival)) : Z :=
@@ -901,7 +911,7 @@ Definition i_pop (a : iarr) : iarr * result :=
       if l =? 0 then (if da_lw d then (a, RV vundef) else (a, RErr 1)) else
       match dnth (da_values d) (l - 1) with
       | Some (IPlain v) =>
-          let d1 := d_with_values d (firstn (N.to_nat (l - 1)) (da_values d)) in
+          let d1 := d_cnt (d_with_values d (firstn (N.to_nat (l - 1)) (da_values d))) (-1) 0 in
           if da_lw d then (ID (d_with_length d1 (l - 1)), RV v) else (ID d1, RErr 1)
       | _ => a_pop primI a
       end
@@ -996,7 +1006,10 @@ Definition i_sort (a : iarr) (cmp : val -> val -> Z) : iarr * result :=
    createDataPropertyOrThrow, which turns a nil slot into a present undefined *)
 Definition i_splice (a : iarr) (st : Z) (dc : option Z) (items : list val) : iarr * result :=
   match a with
-  | ID d => if d_guard d then
+  | ID d => let len0 := da_length d in
+            let start0 := rel st len0 in
+            let del0 := match dc with None => len0 - start0 | Some z => N.min (Z.to_N (Z.max z 0)) (len0 - start0) end in
+            if d_guard d && ((len0 - del0 + nlen items <=? len0) || (da_lw d && b_ext (da_base d))) then
               let len := da_length d in let vs := da_values d in
               let start := rel st len in
               let del := match dc with None => len - start | Some z => N.min (Z.to_N (Z.max z 0)) (len - start) end in
